@@ -157,9 +157,12 @@ Ign(st) == [st EXCEPT !.ign = TRUE]     \* Req.IgnoreErr (anonymous blob mount):
 Src(st) == [st EXCEPT !.src = TRUE]
 Ext == <<cf.extHost, cf.extSch>>
 Loc == <<"loc">>                        \* Req.DirectURL = the upload location
+Pg == <<"pg">>                          \* Req.DirectURL = the next page link (Link header, relative to the URL that
+                                        \* served the previous page); tag.go:tagListLink and
+                                        \* referrer.go:referrerListByAPIPage send it WITHOUT NoMirrors
 \* Req.BodyBytes requests install a GetBody that returns the already drained reader: a 307 cannot
 \* re-send the body (manifest PUT)
-NoRebody(st) == st.meth = "PUT" /\ st.obj = "m"
+NoRebody(st) == st.meth = "PUT" /\ st.obj \in {"m", "k"}
 \* blob.go:BlobCopy, chain copying blob `o` from A to B in steps n..n+10; `next` is where the op continues
 Chain(o, n, next, ext) ==
   << S("B", "r1", "HEAD", o, FALSE, <<>>, next, n + 1),        \* BlobHead on the target: exists = skip
@@ -206,6 +209,26 @@ Prog(op) ==
                           S("A", "r3", "POST", "u", FALSE, <<>>, 9, 0),
                           Src(S("A", "r3", "PUT", "c", FALSE, Loc, 10, 0)),
                           S("A", "r3", "PUT", "m", FALSE, <<>>, 99, 0) >>
+    \* chunked from the start (Host.BlobMax below the blob size): blobPutUploadChunked, blobUploadStatus
+    \* after a refused chunk, blobUploadCancel
+    [] op = "bputc" -> << Ign(S("A", "r1", "POST", "u", FALSE, <<>>, 3, 2)),
+                          S("A", "r1", "POST", "u", FALSE, <<>>, 3, 0),
+                          S("A", "r1", "PATCH", "u", FALSE, Loc, 4, 6),
+                          S("A", "r1", "PUT", "u", FALSE, Loc, 99, 5),
+                          S("A", "r1", "DELETE", "u", FALSE, Loc, 0, 0),
+                          S("A", "r1", "GET", "u", FALSE, Loc, 3, 5) >>
+    \* tag.go:TagList with a second page; referrer.go:referrerListByAPI with a second page, fall back to the
+    \* referrers tag (obj k) when the API request fails (IgnoreErr)
+    [] op = "tags"  -> << S("A", "r1", "GET", "g", TRUE, <<>>, 2, 0), S("A", "r1", "GET", "g", TRUE, Pg, 99, 0) >>
+    [] op = "refs"  -> << Ign(S("A", "r1", "GET", "f", TRUE, <<>>, 2, 3)), S("A", "r1", "GET", "f", TRUE, Pg, 99, 0),
+                          S("A", "r1", "GET", "k", TRUE, <<>>, 99, 0) >>
+    [] op = "refsfb" -> << N404(Ign(S("A", "r1", "GET", "f", TRUE, <<>>, 99, 2))), S("A", "r1", "GET", "k", TRUE, <<>>, 99, 0) >>
+    \* manifest with a subject on a registry without referrers API: referrerPut reads and writes the tag
+    [] op = "mputsub" -> << S("A", "r1", "PUT", "m", FALSE, <<>>, 2, 0), S("A", "r1", "GET", "k", TRUE, <<>>, 3, 3),
+                            S("A", "r1", "PUT", "k", FALSE, <<>>, 99, 0) >>
+    [] op \in {"mdel", "tdel"} -> << S("A", "r1", "DELETE", "m", FALSE, <<>>, 99, 0) >>
+    [] op = "bdel"  -> << S("A", "r1", "DELETE", "l", FALSE, <<>>, 99, 0) >>
+    [] op = "ping"  -> << S("A", "r1", "GET", "o", FALSE, <<>>, 99, 0) >>
     [] op = "copy"  -> CopyHead \o Chain("c", 4, 15, FALSE)
                        \o << S("B", "r1", "PUT", "m", FALSE, <<>>, 99, 0) >>
     [] op = "copyext" -> CopyHead \o Chain("c", 4, 15, FALSE) \o Chain("x", 15, 26, TRUE)
@@ -219,7 +242,7 @@ Natural(st, to) ==
   IF st.n404 THEN "404"
   ELSE IF to = "B" THEN (IF st.meth \in {"HEAD", "GET"} THEN "404" ELSE "200")
   ELSE IF st.direct = Loc THEN (IF to = sess THEN "200" ELSE "404")   \* the session lives where it was opened
-  ELSE IF st.obj = "x" /\ to \in {"A", "M"} /\ ~(st.direct # <<>> /\ st.direct[1] = "A") THEN "404"
+  ELSE IF st.obj = "x" /\ to \in {"A", "M"} /\ ~(st.direct \notin {<<>>, Pg} /\ st.direct[1] = "A") THEN "404"
   ELSE "200"
 
 (***************************************************************************)
@@ -232,7 +255,7 @@ Has(a, k) == k \in DOMAIN a
 Put(a, k, v) == [x \in DOMAIN a \cup {k} |-> IF x = k THEN v ELSE a[x]]
 Acts == IF Step.meth \in {"GET", "HEAD"} THEN {"pull"} ELSE {"pull", "push"}
 ScopeOf == {<<Step.repo, a>> : a \in Acts}
-URL == IF Step.direct = Loc THEN loc
+URL == IF Step.direct \in {Loc, Pg} THEN loc
        ELSE IF Step.direct # <<>> THEN Step.direct
        ELSE <<H, IF cf.tls[H] THEN "https" ELSE "http">>
 CredKind(h, asked) == IF HonorsHost /\ asked # h THEN "none" ELSE cf.cred[h]
@@ -304,7 +327,7 @@ BeginGen(a, k, ctx, good, nto, nsch, copied, pre) ==
 (***************************************************************************)
 FinishLoc(ok, l) ==
   /\ pc' = IF ok THEN Step.onok ELSE Step.onfail
-  /\ loc' = IF ok /\ Step.meth \in {"POST", "PATCH"} THEN l ELSE loc
+  /\ loc' = IF ok /\ (Step.meth \in {"POST", "PATCH"} \/ Step.obj \in {"g", "f"}) THEN l ELSE loc
   /\ sess' = IF ok /\ Step.meth = "POST" THEN Canon(rq.to) ELSE sess
   /\ ph' = "idle" /\ hosts' = <<>> /\ cur' = 1 /\ again' = FALSE /\ sg' = ""
   /\ rq' = NoRq /\ tk' = NoTk /\ gc' = NoGc
